@@ -1,17 +1,29 @@
 package main
 
-// C20: GoLite targets (docs/GOLITE_NOTES.md).
+// C20: GoLite targets (docs/GOLITE_NOTES.md). Theorems: coq/props/C20_Generated.v,
+// table in docs/audit/C20.md (section GoLite).
 func init() {
 	Register("C20", []Target{
+		// version validity and comparison (C20_Semver.sv_valid, compare_plugin_version)
 		{Pkg: ".../internal/semver", Func: "IsValid"},
 		{Pkg: "golang.org/x/mod/semver", Func: "Compare", Oracle: true},
 		{Pkg: ".../internal/semver", Func: "ComparePluginVersion"},
+		// plugin names (C20_Model.valid_name, pname_of, bin_name)
 		{Pkg: ".../plugin", Func: "validatePluginName"},
 		{Pkg: ".../plugin", Func: "parsePluginName"},
 		{Pkg: ".../plugin", Func: "binName"},
+		// metadata validity (C20_Model.validate)
 		{Pkg: ".../internal/slices", Func: "Contains"},
 		{Pkg: ".../plugin", Func: "validate", NonNil: true},
+		// kept as documentation of what is missing: GetMetadata holds the decisions
+		// "validate failed -> PluginMalformedError" and "metadata.Name != p.name -> misnamed";
+		// plugin.run fills its result through the out-parameter &metadata (plugin/plugin.go:101)
+		// and takes an interface (plugin.Request): outside the subset.
 		{Pkg: ".../plugin", Func: "run", Oracle: true},
 		{Pkg: ".../plugin", Func: "(*CLIPlugin).GetMetadata"},
+		// tried and removed (reasons in docs/audit/C20.md): parsePluginFromDir (closure given to
+		// filepath.WalkDir, manager.go:283), CLIManager.Get/Uninstall/Install (struct CLIManager has
+		// no translatable field; Install's version switch is not a separate function),
+		// isExecutableFile / NewCLIPlugin (os.Stat).
 	})
 }
